@@ -16,7 +16,7 @@ def run():
         "A-NP: D[np.ix_(idx, idx)] selects rows/columns idx; np.asarray(radii)[idx] selects the radii of idx",
         "A-SK: DBSCAN groups (see C01)",
     ]
-    sections_parallel(rep, [("cluster.init", _init), ("cluster.getdim", _getdim), ("merge", _merge), ("clean", _clean), ("localize", _localize)])
+    sections_parallel(rep, [("cluster.init", _init), ("cluster.getdim", _getdim), ("merge", _merge), ("clean", _clean), ("localize", _localize), ("pipeline", _pipeline)])
     return rep
 
 
@@ -67,6 +67,23 @@ def _localize(rep):
         st.prove("caches-still-empty", _z3.ForAll([c], CACHE_NONE(st, c)))
 
     run_fv(rep, "localize.", sbc_ctx(), "SBC._localize_clusters", mk, post, loops=L.LOOPS)
+
+
+def _pipeline(rep):
+    """get_clusters end to end (shared with C01): every returned cluster carries the clustering radii and threshold and satisfies the cache invariant;
+    _merge_clusters keeps the radii/threshold tokens of its clusters (WF clause 'carry-the-clustering-radii-and-threshold')"""
+    from props import C01
+    from engine.common import Report as _R
+    tmp = _R("tmp")
+    C01._main(tmp)
+    C01._mergeloop(tmp)
+    keep = ("cache", "radii", "cover.", "canary", "distances-of-the-wrapped-copy", "with-the-resolved-radii", "threshold-forwarded")
+    for ob in tmp.obligations:
+        if any(k in ob.id for k in keep):
+            ob.id = "pipeline." + ob.id
+            rep.add(ob)
+    for f in tmp.functions:
+        rep.functions.append(f)
 
 
 def replay_key(ob):
